@@ -116,4 +116,23 @@ ClampedSupSigned(p, size) == [i \in Idx(p) |-> Min2(Max2(p[i], 0), size[i])]
    coefficients: the functions the harness passes to the library *)
 Lin(c, p) == c[1] + SumTo([i \in Idx(p) |-> c[i + 1] * p[i]], Len(p))
 Comb(c, xs) == SumTo([i \in Idx(xs) |-> c[i] * xs[i]], Len(xs))
+
+(* ---- extension: interpolate, spiral x grid ------------------------------------ *)
+(* grid::interpolate with the linear interpolator ("The latter will determine what kind of
+   interpolation is used (linear, ...)", example: "Will bilinearly interpolate ALL the grid
+   points"): multilinear interpolation of the 2^N cells around the position.  Positions are
+   given in quarters (q = 4 * position); the result is scaled by 4^N so that it is an integer:
+       sum over corner sets s of  prod_i (i in s ? frac_i : 4 - frac_i) * g[floor + 1_s] *)
+AbsD(x) == IF x < 0 THEN -x ELSE x
+InterpScaled(g, q) ==
+  LET n == Len(q)
+      fl == [i \in 1..n |-> q[i] \div 4]
+      fr == [i \in 1..n |-> q[i] % 4]
+      subs == SetToSeq(SUBSET (1..n))
+      term(s) == ProdTo([i \in 1..n |-> IF i \in s THEN fr[i] ELSE 4 - fr[i]], n)
+                 * g.cell[[i \in 1..n |-> IF i \in s THEN fl[i] + 1 ELSE fl[i]]]
+  IN SumTo([k \in 1..Len(subs) |-> term(subs[k])], Len(subs))
+InterpPre(size, q) == \A i \in 1..Len(q) : q[i] >= 0 /\ q[i] \div 4 + 1 < size[i]
+
+Manhattan2(p, o) == AbsD(p[1] - o[1]) + AbsD(p[2] - o[2])
 =============================================================================
